@@ -39,7 +39,8 @@ pub fn gen(seed: u64, tier: Tier, k: u64) -> Value {
             if n_extra > 0 && rng.chance(1, 2) {
                 case.id_gap = *rng.pick(&[1u16, 5, 254]);
             }
-            json!({"kind": "container", "how": how, "case": case.to_json()})
+            // extra packs next to the entry point, or in a sub-directory `packs/` (the recorded location is then a relative path)
+            json!({"kind": "container", "how": how, "subdir": n_extra > 0 && k / 6 % 2 == 1, "case": case.to_json()})
         }
     }
 }
@@ -145,7 +146,7 @@ pub fn run(desc: &Value, ctx: &Ctx) -> CaseOut {
             let made = match how.as_str() {
                 "loose" => create_loose(&cc, &scratch.dir, &|_, f| f.to_string(), None),
                 "loose-concat" => create_loose(&cc, &scratch.dir, &|_, f| f.to_string(), Some("all.jbk")),
-                _ => create_container(&cc, &scratch.dir, "c.jbk", Arc::new(())),
+                _ => create_container_ex(&cc, &scratch.dir, "c.jbk", &if jbool(desc, "subdir") { scratch.dir.join("packs") } else { scratch.dir.clone() }, Arc::new(())),
             };
             match made {
                 Err(e) => out.inconclusive(format!("creation failed (C01/C02's concern): {e}")),
@@ -210,6 +211,26 @@ pub fn run(desc: &Value, ctx: &Ctx) -> CaseOut {
                             Ok(Ok(l)) => out.violate(json!({"kind": "container-listing", "profile": profile()}), format!("C14: {}: the reader lists {} packs {:?}, the independent decoder finds {} {:?}", p.file_name().unwrap().to_string_lossy(), l.len(), l.iter().map(|x| x.1).collect::<Vec<_>>(), want.len(), want.iter().map(|x| x.1).collect::<Vec<_>>()), json!({})),
                             Ok(Err(e)) => out.violate(json!({"kind": "container-listing", "message": util::normalize_msg(&e), "profile": profile()}), format!("C14: {}: listing the packs of a freshly written file failed: {e}", p.file_name().unwrap().to_string_lossy()), json!({})),
                             Err(pn) => out.violate_panic("C14", "container-listing", &how, &pn),
+                        }
+                    }
+                    // every location recorded in the manifest, taken relative to the entry point's directory, names a file
+                    // that holds the pack with that uuid (an empty location = the pack is in the entry point file itself)
+                    let entry_dir = created.path.parent().map(|p| p.to_path_buf()).unwrap_or_default();
+                    for (_, v) in &views {
+                        if let Some(PackBody::Manifest { infos }) = v.manifest_pack().map(|p| &p.body) {
+                            for i in infos {
+                                out.obs.inc(if i.location.is_empty() { "locations.empty" } else if i.location.contains('/') { "locations.with_directory" } else { "locations.file_name" });
+                                let holder = if i.location.is_empty() { created.path.clone() } else { entry_dir.join(&i.location) };
+                                let found = views.iter().any(|(p, hv)| {
+                                    let same = std::fs::canonicalize(p).ok() == std::fs::canonicalize(&holder).ok();
+                                    same && hv.packs.iter().any(|pk| pk.hdr.uuid == i.uuid)
+                                });
+                                // (packs joined into the entry point by tools::concat keep the location they were recorded with)
+                                let inside = views.iter().any(|(p, hv)| *p == created.path && hv.packs.iter().any(|pk| pk.hdr.uuid == i.uuid));
+                                if !found && !inside {
+                                    out.violate(json!({"kind": "recorded-location", "profile": profile()}), format!("C14: the manifest records location {:?} for pack {} ({}): no produced file at that place holds it", i.location, i.id, uuid::Uuid::from_bytes(i.uuid)), json!({}));
+                                }
+                            }
                         }
                     }
                     for d in compare_free(&cc, created.loose, &views) {
